@@ -1,43 +1,945 @@
-//! C27 probe (temporary)
-use memvid_core::{Memvid, MemoryCardBuilder};
-fn card(v: &str) -> memvid_core::MemoryCard {
-    MemoryCardBuilder::new().fact().entity("user").slot("loc").value(v).document_date(1000).source(0, None).engine("t", "1").build(0).unwrap()
+//! C27 — memory-card queries are temporally consistent and persistent.
+//!
+//! Two streams of cases, both executed on the REAL code and on the Lean model (drv_c27):
+//!  * track cases: `MemoriesTrack` in memory — add_card / get_cards / get_current / get_at_time /
+//!    get_entity_cards / get_timeline, serialize→deserialize, and "raw" tracks deserialised from
+//!    hand-made JSON (legacy mixed-case index keys, dangling ids, duplicate ids);
+//!  * store cases: a real `.mv2` file — put_memory_card / clear_memories / mesh updates / frame puts /
+//!    commit / close+reopen / crash (file copy taken while the handle is alive) + reopen.
+//! Oracles (independent of the model): the property clauses restated over the implementation's
+//! outputs, a naive reference for get_cards / get_current / get_at_time on add_card-built tracks, and
+//! snapshot comparison of the whole card track / mesh across reopen and crash.
+use memvid_core::{
+    EntityKind, LinkType, LogicMesh, Memvid, MemoriesTrack, MemoryCard, MemoryKind, MeshEdge, MeshNode,
+    Polarity, PutOptions, VersionRelation,
+};
+use mvh::*;
+use std::collections::BTreeSet;
+use std::path::PathBuf;
+
+// ------------------------------------------------------------------------------------------ ops
+
+#[derive(Clone, Debug)]
+struct CardSpec {
+    kind: u8,
+    entity: String,
+    slot: String,
+    value: String,
+    ev: Option<i64>,
+    doc: Option<i64>,
+    vk: Option<String>,
+    rel: u8,
+    created: i64,
+    extra: u8, // selects polarity / source_uri / offset / confidence variants (not modelled; must persist)
 }
+
+#[derive(Clone, Debug)]
+enum Op {
+    Add(CardSpec),
+    Cards(String, String),
+    Current(String, String),
+    At(String, String, i64),
+    Ent(String),
+    Timeline(String),
+    Dump,
+    RoundTrip, // track cases: serialize → deserialize, continue with the result
+    Raw(Value), // track cases: replace the track by serde_json::from_value(json)
+    Clear,
+    Frame,
+    Commit,
+    Reopen,
+    Crash,
+    Node { name: String, display: String, kind: u8, conf: u8, frame: u64, start: u32, len: u16 },
+    Edge { from: u64, to: u64, link: String, conf: u8, frame: u64 },
+    MeshClear,
+}
+
+const KINDS: [&str; 7] = ["fact", "preference", "event", "profile", "relationship", "goal", "other"];
+const RELS: [&str; 4] = ["sets", "updates", "extends", "retracts"];
+
+fn kind_of(i: u8) -> MemoryKind {
+    match i {
+        0 => MemoryKind::Fact, 1 => MemoryKind::Preference, 2 => MemoryKind::Event, 3 => MemoryKind::Profile,
+        4 => MemoryKind::Relationship, 5 => MemoryKind::Goal, _ => MemoryKind::Other,
+    }
+}
+fn rel_of(i: u8) -> VersionRelation {
+    match i { 0 => VersionRelation::Sets, 1 => VersionRelation::Updates, 2 => VersionRelation::Extends, _ => VersionRelation::Retracts }
+}
+const ENTITY_KINDS: [EntityKind; 11] = [EntityKind::Person, EntityKind::Organization, EntityKind::Project, EntityKind::Email,
+    EntityKind::Date, EntityKind::Location, EntityKind::Product, EntityKind::Event, EntityKind::Money, EntityKind::Url, EntityKind::Other];
+
+fn link_tag(l: &LinkType) -> u8 {
+    match l {
+        LinkType::Manager => 0, LinkType::Member => 1, LinkType::Owner => 2, LinkType::Author => 3, LinkType::Email => 4,
+        LinkType::Deadline => 5, LinkType::Location => 6, LinkType::Employer => 7, LinkType::Parent => 8,
+        LinkType::Child => 9, LinkType::Related => 10, LinkType::Custom(_) => 11,
+    }
+}
+
+impl CardSpec {
+    fn build(&self, id: u64) -> MemoryCard {
+        MemoryCard {
+            id,
+            kind: kind_of(self.kind),
+            entity: self.entity.clone(),
+            slot: self.slot.clone(),
+            value: self.value.clone(),
+            polarity: match self.extra % 4 { 1 => Some(Polarity::Positive), 2 => Some(Polarity::Negative), 3 => Some(Polarity::Neutral), _ => None },
+            event_date: self.ev,
+            document_date: self.doc,
+            version_key: self.vk.clone(),
+            version_relation: rel_of(self.rel),
+            source_frame_id: (self.extra as u64) * 7,
+            source_uri: if self.extra & 4 != 0 { Some(format!("mv2://s/{}", self.extra)) } else { None },
+            source_offset: if self.extra & 8 != 0 { Some((self.extra as usize, self.extra as usize + 5)) } else { None },
+            engine: "eng".into(),
+            engine_version: format!("{}.0", self.extra % 3),
+            confidence: if self.extra & 16 != 0 { Some((self.extra as f32) / 255.0) } else { None },
+            created_at: self.created,
+        }
+    }
+    fn wire(&self) -> String {
+        format!("{} {} {} {} {} {} {} {} {}", KINDS[self.kind.min(6) as usize], hs(&self.entity), hs(&self.slot), hs(&self.value),
+            oi(self.ev), oi(self.doc), self.vk.as_ref().map(|s| hs(s)).unwrap_or_else(|| "none".into()),
+            RELS[self.rel.min(3) as usize], self.created)
+    }
+    fn to_json(&self) -> Value {
+        json!({"kind": self.kind, "entity": self.entity, "slot": self.slot, "value": self.value, "ev": self.ev, "doc": self.doc,
+               "vk": self.vk, "rel": self.rel, "created": self.created, "extra": self.extra})
+    }
+    fn from_json(v: &Value) -> CardSpec {
+        CardSpec {
+            kind: v["kind"].as_u64().unwrap_or(0) as u8, entity: v["entity"].as_str().unwrap_or("").into(),
+            slot: v["slot"].as_str().unwrap_or("").into(), value: v["value"].as_str().unwrap_or("").into(),
+            ev: v["ev"].as_i64(), doc: v["doc"].as_i64(), vk: v["vk"].as_str().map(|s| s.to_string()),
+            rel: v["rel"].as_u64().unwrap_or(0) as u8, created: v["created"].as_i64().unwrap_or(0),
+            extra: v["extra"].as_u64().unwrap_or(0) as u8,
+        }
+    }
+}
+
+fn hs(s: &str) -> String { hexw(s.as_bytes()) }
+fn oi(v: Option<i64>) -> String { v.map(|t| t.to_string()).unwrap_or_else(|| "x".into()) }
+
+impl Op {
+    fn to_json(&self) -> Value {
+        match self {
+            Op::Add(c) => json!({"op": "add", "card": c.to_json()}),
+            Op::Cards(e, s) => json!({"op": "cards", "e": e, "s": s}),
+            Op::Current(e, s) => json!({"op": "current", "e": e, "s": s}),
+            Op::At(e, s, t) => json!({"op": "at", "e": e, "s": s, "t": t}),
+            Op::Ent(e) => json!({"op": "ent", "e": e}),
+            Op::Timeline(e) => json!({"op": "timeline", "e": e}),
+            Op::Dump => json!({"op": "dump"}),
+            Op::RoundTrip => json!({"op": "roundtrip"}),
+            Op::Raw(v) => json!({"op": "raw", "track": v}),
+            Op::Clear => json!({"op": "clear"}),
+            Op::Frame => json!({"op": "frame"}),
+            Op::Commit => json!({"op": "commit"}),
+            Op::Reopen => json!({"op": "reopen"}),
+            Op::Crash => json!({"op": "crash"}),
+            Op::Node { name, display, kind, conf, frame, start, len } =>
+                json!({"op": "node", "name": name, "display": display, "kind": kind, "conf": conf, "frame": frame, "start": start, "len": len}),
+            Op::Edge { from, to, link, conf, frame } => json!({"op": "edge", "from": from.to_string(), "to": to.to_string(), "link": link, "conf": conf, "frame": frame}),
+            Op::MeshClear => json!({"op": "meshclear"}),
+        }
+    }
+    fn from_json(v: &Value) -> Op {
+        let st = |k: &str| v[k].as_str().unwrap_or("").to_string();
+        match v["op"].as_str().unwrap_or("") {
+            "add" => Op::Add(CardSpec::from_json(&v["card"])),
+            "cards" => Op::Cards(st("e"), st("s")),
+            "current" => Op::Current(st("e"), st("s")),
+            "at" => Op::At(st("e"), st("s"), v["t"].as_i64().unwrap_or(0)),
+            "ent" => Op::Ent(st("e")),
+            "timeline" => Op::Timeline(st("e")),
+            "dump" => Op::Dump,
+            "roundtrip" => Op::RoundTrip,
+            "raw" => Op::Raw(v["track"].clone()),
+            "clear" => Op::Clear,
+            "frame" => Op::Frame,
+            "commit" => Op::Commit,
+            "reopen" => Op::Reopen,
+            "crash" => Op::Crash,
+            "node" => Op::Node { name: st("name"), display: st("display"), kind: v["kind"].as_u64().unwrap_or(0) as u8,
+                conf: v["conf"].as_u64().unwrap_or(0) as u8, frame: v["frame"].as_u64().unwrap_or(0),
+                start: v["start"].as_u64().unwrap_or(0) as u32, len: v["len"].as_u64().unwrap_or(0) as u16 },
+            "edge" => Op::Edge { from: st("from").parse().unwrap_or(0), to: st("to").parse().unwrap_or(0), link: st("link"),
+                conf: v["conf"].as_u64().unwrap_or(0) as u8, frame: v["frame"].as_u64().unwrap_or(0) },
+            "meshclear" => Op::MeshClear,
+            other => panic!("unknown op {other}"),
+        }
+    }
+}
+
+#[derive(Clone, Debug)]
+struct Case {
+    store: bool,
+    model: bool, // false: oracle only (strings whose lower-casing is not ASCII lower-casing)
+    ops: Vec<Op>,
+}
+impl Case {
+    fn to_json(&self) -> Value {
+        json!({"store": self.store, "model": self.model, "ops": self.ops.iter().map(|o| o.to_json()).collect::<Vec<_>>()})
+    }
+    fn from_json(v: &Value) -> Case {
+        Case { store: v["store"].as_bool().unwrap_or(false), model: v["model"].as_bool().unwrap_or(true),
+               ops: v["ops"].as_array().map(|a| a.iter().map(Op::from_json).collect()).unwrap_or_default() }
+    }
+}
+
+// ------------------------------------------------------------------------------- implementation side
+
+fn eff(c: &Value) -> i64 {
+    c.get("event_date").and_then(|v| v.as_i64())
+        .or_else(|| c.get("document_date").and_then(|v| v.as_i64()))
+        .unwrap_or_else(|| c["created_at"].as_i64().unwrap_or(0))
+}
+fn is_retr(c: &Value) -> bool { c["version_relation"].as_str() == Some("retracts") }
+
+/// canonical text of the modelled part of a card, from its JSON form
+fn card_canon(c: &Value) -> String {
+    let o = |k: &str| c.get(k).and_then(|v| v.as_i64()).map(|t| t.to_string()).unwrap_or_else(|| "x".into());
+    format!("{}/{}/{}/{}/{}/{}/{}/{}/{}/{}", c["id"].as_u64().unwrap_or(u64::MAX), c["kind"].as_str().unwrap_or("?"),
+        hs(c["entity"].as_str().unwrap_or("")), hs(c["slot"].as_str().unwrap_or("")), hs(c["value"].as_str().unwrap_or("")),
+        o("event_date"), o("document_date"), c.get("version_key").and_then(|v| v.as_str()).map(hs).unwrap_or_else(|| "none".into()),
+        c["version_relation"].as_str().unwrap_or("?"), c["created_at"].as_i64().unwrap_or(0))
+}
+
+fn join_or(v: Vec<String>) -> String { if v.is_empty() { "-".into() } else { v.join(";") } }
+fn ids_str(v: &[u64]) -> String { if v.is_empty() { "-".into() } else { v.iter().map(|x| x.to_string()).collect::<Vec<_>>().join(",") } }
+
+/// the driver's `dump` format computed from the real track (through its serde form)
+fn track_dump(tr: &MemoriesTrack) -> String {
+    let j = serde_json::to_value(tr).expect("track to json");
+    let cards: Vec<String> = j["cards"].as_array().map(|a| a.iter().map(card_canon).collect()).unwrap_or_default();
+    let mut ix: Vec<(String, String)> = j["slot_index"]["entries"].as_object().map(|m| m.iter().map(|(k, v)| {
+        let ids: Vec<u64> = v.as_array().map(|a| a.iter().filter_map(|x| x.as_u64()).collect()).unwrap_or_default();
+        (hs(k), ids_str(&ids))
+    }).collect()).unwrap_or_default();
+    ix.sort();
+    format!("next={} cards={} index={}", j["next_id"].as_u64().unwrap_or(0), join_or(cards),
+        join_or(ix.into_iter().map(|(k, v)| format!("{k}={v}")).collect()))
+}
+
+fn mesh_items(m: &LogicMesh) -> Vec<String> {
+    let mut out = vec![];
+    for n in &m.nodes {
+        let ms: Vec<String> = n.mentions.iter().map(|(f, s, l)| format!("{f}.{s}.{l}")).collect();
+        out.push(format!("n/{}/{}/{}/{}/{}/{}/{}", n.id, hs(&n.canonical_name), hs(&n.display_name), n.kind as u8, n.confidence,
+            ids_str(&n.frame_ids), if ms.is_empty() { "-".into() } else { ms.join(",") }));
+    }
+    for e in &m.edges {
+        out.push(format!("e/{}/{}/{}/{}/{}/{}", e.from_node, e.to_node, link_tag(&e.link), hs(e.link.as_str()), e.confidence, e.frame_id));
+    }
+    out
+}
+fn mesh_dump(m: &LogicMesh) -> String { join_or(mesh_items(m)) }
+
+struct Imp {
+    track: Option<MemoriesTrack>, // track cases
+    mem: Option<Memvid>,          // store cases
+    dir: Option<tempfile::TempDir>,
+    path: PathBuf,
+    gen_no: u32,
+    frames: u32,
+    raw: bool, // a Raw op happened: the naive reference (valid for add_card-built tracks) is off
+    committed_cards: Value, // snapshot of the card track at the last durable point (store cases)
+    committed_mesh: Vec<String>,
+}
+
+impl Imp {
+    fn new(store: bool) -> Result<Imp, String> {
+        if store {
+            let dir = tempfile::tempdir().map_err(|e| e.to_string())?;
+            let path = dir.path().join("c27-0.mv2");
+            let mem = Memvid::create(&path).map_err(|e| format!("create: {e}"))?;
+            let snap = serde_json::to_value(mem.memories()).unwrap();
+            Ok(Imp { track: None, mem: Some(mem), dir: Some(dir), path, gen_no: 0, frames: 0, raw: false, committed_cards: snap, committed_mesh: vec![] })
+        } else {
+            Ok(Imp { track: Some(MemoriesTrack::new()), mem: None, dir: None, path: PathBuf::new(), gen_no: 0, frames: 0, raw: false,
+                     committed_cards: Value::Null, committed_mesh: vec![] })
+        }
+    }
+    fn tr(&self) -> &MemoriesTrack {
+        match &self.track { Some(t) => t, None => self.mem.as_ref().expect("handle").memories() }
+    }
+}
+
+fn lower_key(e: &str, s: &str) -> String { format!("{}:{}", e.to_lowercase(), s.to_lowercase()) }
+
+/// naive reference for tracks built by add_card: the slot's cards, newest first
+fn ref_cards<'a>(cards: &'a [Value], e: &str, s: &str) -> Vec<&'a Value> {
+    let key = lower_key(e, s);
+    let mut v: Vec<&Value> = cards.iter().filter(|c| lower_key(c["entity"].as_str().unwrap_or(""), c["slot"].as_str().unwrap_or("")) == key).collect();
+    v.reverse();
+    v
+}
+/// most recent non-retraction at or before t; ties: the newest card
+fn ref_at(cards: &[&Value], t: Option<i64>) -> Option<u64> {
+    let mut best: Option<&Value> = None;
+    for c in cards {
+        if is_retr(c) { continue; }
+        if let Some(t) = t { if eff(c) > t { continue; } }
+        match best { Some(b) if eff(b) >= eff(c) => {}, _ => best = Some(c) }
+    }
+    best.map(|c| c["id"].as_u64().unwrap())
+}
+
+struct Res {
+    oracle: Vec<(String, String)>,
+    disagree: Vec<(String, String, String)>,
+    branches: Vec<&'static str>,
+    trace: Vec<String>,
+    canon: String,
+    nontrivial: bool,
+    error: Option<String>,
+}
+
+fn opt_id(c: Option<&MemoryCard>) -> String { c.map(|c| c.id.to_string()).unwrap_or_else(|| "none".into()) }
+
+fn eval_case(case: &Case, drv: &mut Option<Driver>) -> Res {
+    let mut r = Res { oracle: vec![], disagree: vec![], branches: vec![], trace: vec![], canon: String::new(), nontrivial: false, error: None };
+    let mut imp = match Imp::new(case.store) { Ok(i) => i, Err(e) => { r.error = Some(e); return r; } };
+    let use_model = case.model && drv.is_some();
+    let mut ask = |drv: &mut Option<Driver>, line: &str| -> Option<String> {
+        if use_model { Some(drv.as_mut().unwrap().ask(line)) } else { None }
+    };
+    ask(drv, "new");
+    let mut canon = String::new();
+    for (i, op) in case.ops.iter().enumerate() {
+        // (request to the model, implementation's answer)
+        let mut req: Option<String> = None;
+        let imp_ans: String;
+        match op {
+            Op::Add(c) => {
+                let card = c.build(0xDEAD_0000 + i as u64);
+                let id = if case.store {
+                    match imp.mem.as_mut().unwrap().put_memory_card(card) { Ok(id) => id, Err(e) => { r.error = Some(format!("put_memory_card: {e}")); return r; } }
+                } else { imp.track.as_mut().unwrap().add_card(card) };
+                imp_ans = format!("id {id}");
+                req = Some(format!("add {}", c.wire()));
+                // version key defaulting + id assignment, on the stored card
+                let stored = imp.tr().get_card(id).cloned();
+                match stored {
+                    Some(sc) => {
+                        let want_vk = c.vk.clone().unwrap_or_else(|| format!("{}:{}", c.entity, c.slot));
+                        if sc.version_key.as_deref() != Some(want_vk.as_str()) || sc.entity != c.entity || sc.created_at != c.created {
+                            r.oracle.push(("add-card-alters-card".into(), format!("op {i}: stored {:?}", sc)));
+                        }
+                    }
+                    None => if !imp.raw { r.oracle.push(("added-card-not-retrievable".into(), format!("op {i}: id {id}"))) },
+                }
+                if c.vk.is_none() { r.branches.push("default-version-key"); }
+                if c.rel == 3 { r.branches.push("add-retraction"); }
+                if c.ev.is_none() && c.doc.is_none() { r.branches.push("add-dateless"); }
+                if c.entity.contains(':') || c.slot.contains(':') { r.branches.push("colon-in-entity-or-slot"); }
+            }
+            Op::Cards(e, s) | Op::Current(e, s) | Op::At(e, s, _) => {
+                let tr = imp.tr();
+                let cards: Vec<&MemoryCard> = tr.get_cards(e, s);
+                let cards_j: Vec<Value> = cards.iter().map(|c| serde_json::to_value(c).unwrap()).collect();
+                let all_j: Vec<Value> = tr.cards().iter().map(|c| serde_json::to_value(c).unwrap()).collect();
+                let reference = ref_cards(&all_j, e, s);
+                if !imp.raw {
+                    let got: Vec<u64> = cards.iter().map(|c| c.id).collect();
+                    let want: Vec<u64> = reference.iter().map(|c| c["id"].as_u64().unwrap()).collect();
+                    if got != want {
+                        r.oracle.push(("get-cards-differs-from-reference".into(), format!("op {i}: get_cards({e:?},{s:?}) = {got:?}, reference (same lower-cased key, newest first) = {want:?}")));
+                    }
+                    let k = lower_key(e, s);
+                    if k.to_lowercase() != k { r.oracle.push(("lowercase-not-idempotent".into(), format!("op {i}: key {k:?}"))); }
+                }
+                if cards.len() >= 2 { r.nontrivial = true; }
+                let mut tss: Vec<i64> = cards_j.iter().map(eff).collect();
+                tss.sort();
+                if tss.windows(2).any(|w| w[0] == w[1]) { r.branches.push("query-slot-with-timestamp-tie"); }
+                let cur = if case.store { imp.mem.as_ref().unwrap().get_current_memory(e, s) } else { tr.get_current(e, s) };
+                match op {
+                    Op::Cards(..) => {
+                        imp_ans = ids_str(&cards.iter().map(|c| c.id).collect::<Vec<_>>());
+                        req = Some(format!("cards {} {}", hs(e), hs(s)));
+                        if cards.is_empty() { r.branches.push("cards-empty"); } else { r.branches.push("cards-nonempty"); }
+                    }
+                    Op::Current(..) => {
+                        imp_ans = opt_id(cur);
+                        req = Some(format!("current {} {}", hs(e), hs(s)));
+                        if let Some(c) = cur {
+                            if c.is_retracted() { r.oracle.push(("current-returns-retraction".into(), format!("op {i}: get_current({e:?},{s:?}) = card {}", c.id))); }
+                            if cards_j.iter().any(|d| !is_retr(d) && eff(d) > c.effective_timestamp()) {
+                                r.oracle.push(("current-not-most-recent".into(), format!("op {i}: get_current({e:?},{s:?}) = card {} @{}", c.id, c.effective_timestamp())));
+                            }
+                            if cards_j.iter().any(|d| is_retr(d) && eff(d) >= c.effective_timestamp()) { r.branches.push("current-skips-newer-retraction"); }
+                        } else if cards_j.iter().any(|d| !is_retr(d)) {
+                            r.oracle.push(("current-none-with-live-card".into(), format!("op {i}: get_current({e:?},{s:?}) = None")));
+                        } else if !cards_j.is_empty() { r.branches.push("current-none-all-retracted"); }
+                        if !imp.raw {
+                            let want = ref_at(&reference, None);
+                            if cur.map(|c| c.id) != want { r.oracle.push(("current-differs-from-reference".into(), format!("op {i}: get_current({e:?},{s:?}) = {:?}, reference {want:?}", cur.map(|c| c.id)))); }
+                        }
+                    }
+                    Op::At(_, _, t) => {
+                        let at = if case.store { imp.mem.as_ref().unwrap().get_memory_at_time(e, s, *t) } else { tr.get_at_time(e, s, *t) };
+                        imp_ans = opt_id(at);
+                        req = Some(format!("at {} {} {}", hs(e), hs(s), t));
+                        // ---- property oracle, clause 1
+                        if let Some(c) = at {
+                            r.branches.push("at-some");
+                            if c.effective_timestamp() > *t {
+                                r.oracle.push(("at-time-returns-future-card".into(), format!("op {i}: get_at_time({e:?},{s:?},{t}) = card {} with effective time {}", c.id, c.effective_timestamp())));
+                            }
+                            if c.is_retracted() || c.version_relation == VersionRelation::Retracts {
+                                r.oracle.push(("at-time-returns-retraction".into(), format!("op {i}: get_at_time({e:?},{s:?},{t}) = card {}", c.id)));
+                            }
+                            if cards_j.iter().any(|d| !is_retr(d) && eff(d) <= *t && eff(d) > c.effective_timestamp()) {
+                                r.oracle.push(("at-time-not-most-recent".into(), format!("op {i}: get_at_time({e:?},{s:?},{t}) = card {} @{}", c.id, c.effective_timestamp())));
+                            }
+                            if cards_j.iter().any(|d| eff(d) > *t) { r.branches.push("at-some-with-later-cards"); }
+                            if cards_j.iter().any(|d| is_retr(d) && eff(d) <= *t && eff(d) >= c.effective_timestamp()) { r.branches.push("at-skips-retraction"); }
+                        } else {
+                            if cards_j.iter().any(|d| !is_retr(d) && eff(d) <= *t) {
+                                r.oracle.push(("at-time-none-with-eligible-card".into(), format!("op {i}: get_at_time({e:?},{s:?},{t}) = None")));
+                            }
+                            if !cards_j.is_empty() { r.branches.push("at-none-with-cards"); }
+                        }
+                        // ---- property oracle, clause 2
+                        if cards_j.iter().all(|d| eff(d) <= *t) {
+                            if !cards_j.is_empty() { r.branches.push("at-beyond-latest"); }
+                            if at.map(|c| c.id) != cur.map(|c| c.id) {
+                                r.oracle.push(("latest-differs-from-current".into(), format!("op {i}: t={t} is at/beyond every card of ({e:?},{s:?}) but get_at_time = {:?}, get_current = {:?}", at.map(|c| c.id), cur.map(|c| c.id))));
+                            }
+                        }
+                        if !imp.raw {
+                            let want = ref_at(&reference, Some(*t));
+                            if at.map(|c| c.id) != want { r.oracle.push(("at-time-differs-from-reference".into(), format!("op {i}: get_at_time({e:?},{s:?},{t}) = {:?}, reference {want:?}", at.map(|c| c.id)))); }
+                        }
+                    }
+                    _ => unreachable!(),
+                }
+            }
+            Op::Ent(e) => {
+                let mut ids: Vec<u64> = imp.tr().get_entity_cards(e).iter().map(|c| c.id).collect();
+                ids.sort();
+                imp_ans = ids_str(&ids);
+                req = Some(format!("ent {}", hs(e)));
+            }
+            Op::Timeline(e) => {
+                let tl = imp.tr().get_timeline(e);
+                if tl.windows(2).any(|w| w[0].effective_timestamp() > w[1].effective_timestamp()) {
+                    r.oracle.push(("timeline-not-chronological".into(), format!("op {i}: get_timeline({e:?})")));
+                }
+                if tl.iter().any(|c| c.kind != MemoryKind::Event) { r.oracle.push(("timeline-non-event".into(), format!("op {i}"))); }
+                let mut v: Vec<(i64, u64)> = tl.iter().map(|c| (c.effective_timestamp(), c.id)).collect();
+                v.sort();
+                if v.len() >= 2 { r.branches.push("timeline-2plus"); }
+                imp_ans = ids_str(&v.iter().map(|x| x.1).collect::<Vec<_>>());
+                req = Some(format!("timeline {}", hs(e)));
+            }
+            Op::Dump => {
+                imp_ans = track_dump(imp.tr());
+                req = Some("dump".into());
+            }
+            Op::RoundTrip => {
+                let tr = imp.track.as_ref().expect("roundtrip in track case");
+                let before = serde_json::to_value(tr).unwrap();
+                let bytes = match tr.serialize() { Ok(b) => b, Err(e) => { r.error = Some(format!("serialize: {e}")); return r; } };
+                match MemoriesTrack::deserialize(&bytes) {
+                    Ok(t2) => {
+                        let after = serde_json::to_value(&t2).unwrap();
+                        if before != after { r.oracle.push(("serialize-roundtrip-changes-track".into(), format!("op {i}: before {before} after {after}"))); }
+                        imp.track = Some(t2);
+                        r.branches.push("roundtrip");
+                    }
+                    Err(e) => r.oracle.push(("serialize-roundtrip-fails".into(), format!("op {i}: {e}"))),
+                }
+                imp_ans = track_dump(imp.tr());
+                req = Some("dump".into());
+            }
+            Op::Raw(j) => {
+                match serde_json::from_value::<MemoriesTrack>(j.clone()) {
+                    Ok(t) => { imp.track = Some(t); imp.raw = true; r.branches.push("raw-track"); }
+                    Err(e) => { r.error = Some(format!("raw track json rejected: {e}")); return r; }
+                }
+                // load the same state into the model
+                ask(drv, "new");
+                for c in j["cards"].as_array().cloned().unwrap_or_default() {
+                    let line = format!("rawcard {} {} {} {} {} {} {} {} {} {}", c["id"].as_u64().unwrap_or(0), c["kind"].as_str().unwrap_or("fact"),
+                        hs(c["entity"].as_str().unwrap_or("")), hs(c["slot"].as_str().unwrap_or("")), hs(c["value"].as_str().unwrap_or("")),
+                        oi(c.get("event_date").and_then(|v| v.as_i64())), oi(c.get("document_date").and_then(|v| v.as_i64())),
+                        c.get("version_key").and_then(|v| v.as_str()).map(hs).unwrap_or_else(|| "none".into()),
+                        c.get("version_relation").and_then(|v| v.as_str()).unwrap_or("sets"), c["created_at"].as_i64().unwrap_or(0));
+                    ask(drv, &line);
+                }
+                if let Some(m) = j["slot_index"]["entries"].as_object() {
+                    for (k, v) in m {
+                        let ids: Vec<u64> = v.as_array().map(|a| a.iter().filter_map(|x| x.as_u64()).collect()).unwrap_or_default();
+                        ask(drv, &format!("rawindex {} {}", hs(k), ids_str(&ids)));
+                    }
+                }
+                ask(drv, &format!("rawnext {}", j["next_id"].as_u64().unwrap_or(0)));
+                imp_ans = track_dump(imp.tr());
+                req = Some("dump".into());
+            }
+            Op::Clear => {
+                if case.store { imp.mem.as_mut().unwrap().clear_memories(); } else { imp.track.as_mut().unwrap().clear(); }
+                imp_ans = "ok".into();
+                req = Some("clear".into());
+                r.branches.push("clear");
+            }
+            Op::Frame => {
+                let m = imp.mem.as_mut().expect("frame in store case");
+                imp.frames += 1;
+                let opts = PutOptions::builder().extract_triplets(false).build();
+                let body = format!("frame number {} of this history", imp.frames);
+                if let Err(e) = m.put_bytes_with_options(body.as_bytes(), opts) { r.error = Some(format!("put_bytes: {e}")); return r; }
+                imp_ans = "ok".into();
+                req = Some("frame".into());
+                r.branches.push("frame");
+            }
+            Op::Commit => {
+                let m = imp.mem.as_mut().expect("commit in store case");
+                if let Err(e) = m.commit() { r.error = Some(format!("commit: {e}")); return r; }
+                imp.committed_cards = serde_json::to_value(m.memories()).unwrap();
+                imp.committed_mesh = { let mut v = mesh_items(m.logic_mesh()); v.sort(); v };
+                imp_ans = "ok".into();
+                req = Some("commit".into());
+                if m.memory_card_count() == 0 { r.branches.push("commit-without-cards"); } else { r.branches.push("commit-with-cards"); }
+            }
+            Op::Reopen | Op::Crash => {
+                let crash = matches!(op, Op::Crash);
+                let m = imp.mem.take().expect("reopen in store case");
+                let before_cards = serde_json::to_value(m.memories()).unwrap();
+                let before_mesh = { let mut v = mesh_items(m.logic_mesh()); v.sort(); v };
+                let open_path = if crash {
+                    // what a dying process leaves behind: the file as it is now (WAL records are fsynced by put)
+                    imp.gen_no += 1;
+                    let p2 = imp.dir.as_ref().unwrap().path().join(format!("c27-{}.mv2", imp.gen_no));
+                    if let Err(e) = std::fs::copy(&imp.path, &p2) { r.error = Some(format!("copy: {e}")); return r; }
+                    drop(m);
+                    let _ = std::fs::remove_file(&imp.path);
+                    imp.path = p2.clone();
+                    p2
+                } else {
+                    drop(m); // Drop commits a dirty handle
+                    imp.path.clone()
+                };
+                match Memvid::open(&open_path) {
+                    Ok(m2) => {
+                        let after_cards = serde_json::to_value(m2.memories()).unwrap();
+                        let after_mesh = { let mut v = mesh_items(m2.logic_mesh()); v.sort(); v };
+                        let (want_cards, want_mesh, sig, how) = if crash {
+                            (&imp.committed_cards, &imp.committed_mesh, "crash-reopen-changes-committed", "crash + reopen: state of the last commit")
+                        } else {
+                            (&before_cards, &before_mesh, "close-reopen-changes", "close + reopen: state before close")
+                        };
+                        if &after_cards != want_cards {
+                            r.oracle.push((format!("{sig}-card-set"), format!("op {i}: {how} had {} cards, reopened file has {}; before={} after={}",
+                                want_cards["cards"].as_array().map(|a| a.len()).unwrap_or(0), after_cards["cards"].as_array().map(|a| a.len()).unwrap_or(0),
+                                want_cards["cards"], after_cards["cards"])));
+                        }
+                        if &after_mesh != want_mesh {
+                            r.oracle.push((format!("{sig}-logic-mesh"), format!("op {i}: {how} had mesh {:?}, reopened file has {:?}", want_mesh, after_mesh)));
+                        }
+                        if after_cards["cards"].as_array().map(|a| a.len()).unwrap_or(0) > 0 { r.nontrivial = true; r.branches.push(if crash { "crash-with-cards" } else { "reopen-with-cards" }); }
+                        if !after_mesh.is_empty() { r.branches.push("reopen-with-mesh"); }
+                        imp.committed_cards = after_cards;
+                        imp.committed_mesh = after_mesh;
+                        imp.mem = Some(m2);
+                        imp_ans = "ok".into();
+                    }
+                    Err(e) => {
+                        r.oracle.push((if crash { "crash-reopen-fails".to_string() } else { "close-reopen-fails".to_string() }, format!("op {i}: open: {e}")));
+                        r.error = Some(format!("open: {e}"));
+                        imp_ans = "err".into();
+                    }
+                }
+                let m_ans = ask(drv, if crash { "crash" } else { "reopen" });
+                if let Some(ma) = m_ans { if ma != imp_ans { r.disagree.push((format!("op {i} {op:?}"), ma, imp_ans.clone())); } }
+                if r.error.is_some() { return r; }
+                // whole state after reopening
+                let d_imp = track_dump(imp.tr());
+                if let Some(d_mod) = ask(drv, "dump") { if d_mod != d_imp { r.disagree.push((format!("op {i} {op:?}: dump"), d_mod, d_imp.clone())); } }
+                let m_imp = mesh_dump(imp.mem.as_ref().unwrap().logic_mesh());
+                if let Some(m_mod) = ask(drv, "mesh") { if m_mod != m_imp { r.disagree.push((format!("op {i} {op:?}: mesh"), m_mod, m_imp.clone())); } }
+                r.trace.push(format!("{i}: {op:?} -> impl cards={} mesh={}", d_imp, m_imp));
+                canon.push_str(&d_imp);
+                continue;
+            }
+            Op::Node { name, display, kind, conf, frame, start, len } => {
+                let k = ENTITY_KINDS[(*kind as usize) % ENTITY_KINDS.len()];
+                let mut n = MeshNode::new(name.clone(), display.clone(), k, 0.0, *frame, *start, *len);
+                n.confidence = *conf;
+                let id = n.id;
+                imp.mem.as_mut().expect("node in store case").add_mesh_node(n);
+                imp_ans = "ok".into();
+                req = Some(format!("node {} {} {} {} {} {} {} {}", id, hs(name), hs(display), k as u8, conf, frame, start, len));
+                r.branches.push("mesh-node");
+            }
+            Op::Edge { from, to, link, conf, frame } => {
+                let l = LinkType::from_str(link);
+                let mut e = MeshEdge::new(*from, *to, l.clone(), 0.0, *frame);
+                e.confidence = *conf;
+                imp.mem.as_mut().expect("edge in store case").add_mesh_edge(e);
+                imp_ans = "ok".into();
+                req = Some(format!("edge {} {} {} {} {} {}", from, to, link_tag(&l), hs(l.as_str()), conf, frame));
+                r.branches.push("mesh-edge");
+            }
+            Op::MeshClear => {
+                imp.mem.as_mut().expect("meshclear in store case").set_logic_mesh(LogicMesh::new());
+                imp_ans = "ok".into();
+                req = Some("meshclear".into());
+                r.branches.push("mesh-clear");
+            }
+        }
+        r.trace.push(format!("{i}: {op:?} -> impl {imp_ans}"));
+        canon.push_str(&imp_ans);
+        canon.push('|');
+        if let Some(q) = req {
+            if let Some(m_ans) = ask(drv, &q) {
+                if m_ans != imp_ans { r.disagree.push((format!("op {i} {q}"), m_ans, imp_ans)); }
+            }
+        }
+    }
+    // end of case: whole state
+    let d_imp = track_dump(imp.tr());
+    if let Some(d_mod) = ask(drv, "dump") { if d_mod != d_imp { r.disagree.push(("final dump".into(), d_mod, d_imp.clone())); } }
+    if case.store {
+        let m_imp = mesh_dump(imp.mem.as_ref().unwrap().logic_mesh());
+        if let Some(m_mod) = ask(drv, "mesh") { if m_mod != m_imp { r.disagree.push(("final mesh".into(), m_mod, m_imp)); } }
+    }
+    canon.push_str(&d_imp);
+    r.canon = b3short(canon.as_bytes());
+    r
+}
+
+// ------------------------------------------------------------------------------------- generators
+
+const ENT_BASE: [&str; 12] = ["user", "User", "USER", "a", "a:b", "A:B", "b:c", "", "user.team", "東京", "zoé", "x y"];
+const SLOT_BASE: [&str; 11] = ["loc", "Loc", "LOC", "c", "b:c", "employer", "", "hobby", ":", "名前", "c:"];
+
+fn rand_case_of(rng: &mut Rng, s: &str) -> String {
+    s.chars().map(|c| if c.is_ascii_alphabetic() && rng.chance(1, 3) { if c.is_ascii_lowercase() { c.to_ascii_uppercase() } else { c.to_ascii_lowercase() } } else { c }).collect()
+}
+
+fn gen_ts(rng: &mut Rng, pool: &[i64]) -> i64 {
+    match rng.below(10) {
+        0 => *rng.pick(&[i64::MIN, i64::MAX, i64::MIN + 1, i64::MAX - 1, 0, -1]),
+        1 => rng.i64(-50, 50),
+        _ => *rng.pick(pool),
+    }
+}
+
+fn gen_card(rng: &mut Rng, ents: &[String], slots: &[String], pool: &[i64]) -> CardSpec {
+    let e0 = rng.pick(ents).clone();
+    let s0 = rng.pick(slots).clone();
+    let e = rand_case_of(rng, &e0);
+    let s = rand_case_of(rng, &s0);
+    CardSpec {
+        kind: if rng.chance(1, 3) { 2 } else { rng.below(7) as u8 },
+        entity: e, slot: s,
+        value: rng.pick(&["NY", "SF", "", "x y", "値", "NY"]).to_string(),
+        ev: if rng.chance(2, 5) { Some(gen_ts(rng, pool)) } else { None },
+        doc: if rng.chance(1, 2) { Some(gen_ts(rng, pool)) } else { None },
+        vk: match rng.below(5) { 0 => Some("k".into()), 1 => Some(String::new()), _ => None },
+        rel: if rng.chance(1, 4) { 3 } else { rng.below(4) as u8 },
+        created: gen_ts(rng, pool),
+        extra: rng.below(32) as u8,
+    }
+}
+
+fn queries_for(rng: &mut Rng, cards: &[CardSpec], out: &mut Vec<Op>, n_pairs: usize) {
+    if cards.is_empty() { out.push(Op::At("user".into(), "loc".into(), 0)); return; }
+    for _ in 0..n_pairs {
+        let c = rng.pick(cards).clone();
+        let (e, s) = match rng.below(8) {
+            0 => (c.entity.to_uppercase(), c.slot.to_lowercase()),
+            1 => (rand_case_of(rng, &c.entity), rand_case_of(rng, &c.slot)),
+            2 => ("nobody".to_string(), c.slot.clone()),
+            // the other split of a colon-joined key
+            3 => { let k = format!("{}:{}", c.entity, c.slot); match k.rfind(':') { Some(p) => (k[..p].to_string(), k[p + 1..].to_string()), None => (c.entity.clone(), c.slot.clone()) } }
+            _ => (c.entity.clone(), c.slot.clone()),
+        };
+        out.push(Op::Cards(e.clone(), s.clone()));
+        out.push(Op::Current(e.clone(), s.clone()));
+        // times at/around every card of that slot, and beyond
+        let key = lower_key(&e, &s);
+        let mut ts: BTreeSet<i64> = BTreeSet::new();
+        for d in cards.iter().filter(|d| lower_key(&d.entity, &d.slot) == key) {
+            let t = d.ev.or(d.doc).unwrap_or(d.created);
+            ts.insert(t); ts.insert(t.saturating_sub(1)); ts.insert(t.saturating_add(1));
+        }
+        ts.insert(i64::MAX); ts.insert(i64::MIN);
+        let mut tv: Vec<i64> = ts.into_iter().collect();
+        rng.shuffle(&mut tv);
+        for t in tv.into_iter().take(7) { out.push(Op::At(e.clone(), s.clone(), t)); }
+    }
+}
+
+fn gen_track_case(rng: &mut Rng, thorough: bool) -> Case {
+    let ne = rng.usize(1, 3);
+    let ns = rng.usize(1, 3);
+    let ents: Vec<String> = (0..ne).map(|_| rng.pick(&ENT_BASE).to_string()).collect();
+    let slots: Vec<String> = (0..ns).map(|_| rng.pick(&SLOT_BASE).to_string()).collect();
+    let pool: Vec<i64> = (0..rng.usize(1, 4)).map(|_| rng.i64(-3, 30) * 10).collect();
+    let n = if rng.chance(1, 10) { rng.usize(0, 1) } else { rng.usize(2, if thorough { 40 } else { 14 }) };
+    let mut ops = vec![];
+    let mut cards = vec![];
+    for i in 0..n {
+        let c = gen_card(rng, &ents, &slots, &pool);
+        cards.push(c.clone());
+        ops.push(Op::Add(c));
+        if rng.chance(1, 6) && i + 1 < n { queries_for(rng, &cards, &mut ops, 1); }
+        if rng.chance(1, 25) { ops.push(Op::RoundTrip); }
+        if rng.chance(1, 60) { ops.push(Op::Clear); cards.clear(); }
+    }
+    queries_for(rng, &cards, &mut ops, 3);
+    if let Some(c) = cards.first() { ops.push(Op::Ent(c.entity.clone())); ops.push(Op::Timeline(rand_case_of(rng, &c.entity))); }
+    if rng.chance(1, 2) {
+        ops.push(Op::RoundTrip);
+        queries_for(rng, &cards, &mut ops, 2);
+    }
+    Case { store: false, model: true, ops }
+}
+
+/// a track as it could sit in an old or foreign file: mixed-case index keys, dangling and duplicate ids
+fn gen_raw_case(rng: &mut Rng) -> Case {
+    let ents = ["User", "user", "a:b"];
+    let slots = ["Loc", "loc", "c"];
+    let n = rng.usize(1, 8);
+    let mut cards = vec![];
+    let mut specs = vec![];
+    for _ in 0..n {
+        let id = rng.below(n as u64 + 2);
+        let pool = [10i64, 20, 20, 30];
+        let c = gen_card(rng, &ents.map(String::from), &slots.map(String::from), &pool);
+        let mut j = json!({"id": id, "kind": KINDS[c.kind.min(6) as usize], "entity": c.entity, "slot": c.slot, "value": c.value,
+            "version_relation": RELS[c.rel.min(3) as usize], "source_frame_id": 0, "engine": "e", "engine_version": "1", "created_at": c.created});
+        if let Some(t) = c.ev { j["event_date"] = json!(t); }
+        if let Some(t) = c.doc { j["document_date"] = json!(t); }
+        if let Some(k) = &c.vk { j["version_key"] = json!(k); }
+        cards.push(j);
+        specs.push(c);
+    }
+    // one stored spelling per lower-cased key (the fallback's iteration order over several is unspecified)
+    let mut entries = serde_json::Map::new();
+    let mut seen = BTreeSet::new();
+    for c in &specs {
+        let lk = lower_key(&c.entity, &c.slot);
+        if !seen.insert(lk.clone()) { continue; }
+        let stored = if rng.chance(1, 2) { lk.clone() } else { format!("{}:{}", c.entity, c.slot) };
+        let mut ids: Vec<u64> = (0..rng.usize(0, 5)).map(|_| rng.below(n as u64 + 3)).collect();
+        if rng.chance(1, 2) { ids.dedup(); }
+        entries.insert(stored, json!(ids));
+    }
+    let track = json!({"cards": cards, "next_id": n as u64 + 5 + rng.below(3), "slot_index": {"entries": entries},
+        "enrichment_manifest": {"frames": {}, "total_frames_enriched": 0, "total_cards_created": 0, "last_enrichment": null}});
+    let mut ops = vec![Op::Raw(track)];
+    queries_for(rng, &specs, &mut ops, 3);
+    if rng.chance(1, 2) {
+        let c = gen_card(rng, &ents.map(String::from), &slots.map(String::from), &[10, 20]);
+        specs.push(c.clone());
+        ops.push(Op::Add(c));
+        queries_for(rng, &specs, &mut ops, 2);
+    }
+    ops.push(Op::Ent("user".into()));
+    ops.push(Op::RoundTrip);
+    Case { store: false, model: true, ops }
+}
+
+/// strings whose Unicode lower-casing differs from ASCII lower-casing: oracle only
+fn gen_unicode_case(rng: &mut Rng) -> Case {
+    let ents = ["ÉCOLE", "école", "İstanbul", "ΣΑΣ", "σας", "STRASSE", "Ǆ", "ǆ", "ÀB:c"];
+    let slots = ["ÑAME", "ñame", "Σ", "ς", "x"];
+    let pool = [10i64, 20, 20, 30];
+    let mut ops = vec![];
+    let mut cards = vec![];
+    for _ in 0..rng.usize(2, 12) {
+        let mut c = gen_card(rng, &ents.map(String::from), &slots.map(String::from), &pool);
+        c.entity = rng.pick(&ents).to_string();
+        c.slot = rng.pick(&slots).to_string();
+        cards.push(c.clone());
+        ops.push(Op::Add(c));
+    }
+    queries_for(rng, &cards, &mut ops, 4);
+    ops.push(Op::RoundTrip);
+    queries_for(rng, &cards, &mut ops, 2);
+    Case { store: false, model: false, ops }
+}
+
+fn gen_store_case(rng: &mut Rng, thorough: bool) -> Case {
+    let ents: Vec<String> = vec!["user".into(), rng.pick(&ENT_BASE).to_string()];
+    let slots: Vec<String> = vec!["loc".into(), rng.pick(&SLOT_BASE).to_string()];
+    let pool = [10i64, 20, 20, 30];
+    let n = rng.usize(3, if thorough { 24 } else { 12 });
+    let mut ops = vec![];
+    let mut cards: Vec<CardSpec> = vec![];
+    let mut frames = 0;
+    let mut node_ids: Vec<u64> = vec![];
+    for _ in 0..n {
+        match rng.below(20) {
+            0..=6 => { let c = gen_card(rng, &ents, &slots, &pool); cards.push(c.clone()); ops.push(Op::Add(c)); }
+            7 => { ops.push(Op::Clear); cards.clear(); }
+            8 | 9 => if frames < 6 { frames += 1; ops.push(Op::Frame); },
+            10..=12 => ops.push(Op::Commit),
+            13 | 14 => ops.push(Op::Reopen),
+            15 => ops.push(Op::Crash),
+            16 | 17 => {
+                let name = rng.pick(&["alice", "bob", "acme", "alice"]).to_string();
+                let kind = rng.below(3) as u8;
+                node_ids.push(memvid_core::types::logic_mesh::compute_node_id(&name, ENTITY_KINDS[kind as usize]));
+                ops.push(Op::Node { display: rand_case_of(rng, &name), name, kind, conf: rng.below(101) as u8, frame: rng.below(4), start: rng.below(50) as u32, len: rng.below(9) as u16 });
+            }
+            18 => {
+                let from = if node_ids.is_empty() { 1 } else { *rng.pick(&node_ids) };
+                let to = if node_ids.is_empty() { 2 } else { *rng.pick(&node_ids) };
+                ops.push(Op::Edge { from, to, link: rng.pick(&["manager", "works_at", "friend", "Zed", "member"]).to_string(), conf: rng.below(101) as u8, frame: rng.below(4) });
+            }
+            _ => ops.push(Op::MeshClear),
+        }
+    }
+    // always end with a durable point and both kinds of reopening
+    match rng.below(3) {
+        0 => { ops.push(Op::Commit); ops.push(Op::Reopen); }
+        1 => { ops.push(Op::Commit); if frames < 6 { ops.push(Op::Frame); } if rng.bool() { let c = gen_card(rng, &ents, &slots, &pool); ops.push(Op::Add(c)); } ops.push(Op::Crash); ops.push(Op::Reopen); }
+        _ => { ops.push(Op::Reopen); ops.push(Op::Crash); }
+    }
+    queries_for(rng, &cards, &mut ops, 1);
+    Case { store: true, model: true, ops }
+}
+
+fn spec(e: &str, s: &str, ev: Option<i64>, doc: Option<i64>, rel: u8, created: i64) -> CardSpec {
+    CardSpec { kind: 0, entity: e.into(), slot: s.into(), value: "v".into(), ev, doc, vk: None, rel, created, extra: 0 }
+}
+
+fn corpus() -> Vec<Case> {
+    let mut v = vec![];
+    // the model's worked example (MvProps/C27.lean exTrack)
+    let mut ops = vec![
+        Op::Add(spec("User", "loc", None, Some(10), 0, 1)), Op::Add(spec("user", "Loc", Some(20), Some(3), 1, 1)),
+        Op::Add(spec("user", "loc", None, Some(20), 0, 1)), Op::Add(spec("user", "loc", Some(30), None, 3, 1)),
+        Op::Add(spec("USER", "loc", None, None, 2, 5)),
+        Op::Cards("uSer".into(), "LOC".into()), Op::Current("uSer".into(), "LOC".into()),
+    ];
+    for t in [30, 20, 19, 9, 4, i64::MAX, i64::MIN] { ops.push(Op::At("uSer".into(), "LOC".into(), t)); }
+    ops.push(Op::RoundTrip);
+    ops.push(Op::Dump);
+    v.push(Case { store: false, model: true, ops });
+    // only retractions; empty track; colon collision
+    v.push(Case { store: false, model: true, ops: vec![Op::Add(spec("u", "s", Some(5), None, 3, 0)), Op::Current("u".into(), "s".into()), Op::At("u".into(), "s".into(), 9), Op::At("x".into(), "y".into(), 0)] });
+    v.push(Case { store: false, model: true, ops: vec![Op::Add(spec("a:b", "c", Some(5), None, 0, 0)), Op::Add(spec("a", "b:c", Some(7), None, 0, 0)), Op::Cards("a".into(), "b:c".into()), Op::At("a:b".into(), "c".into(), 6), Op::Ent("a".into()), Op::Timeline("a".into())] });
+    // persistence witnesses: (A) clear is not persisted, (B) WAL recovery on open drops the committed tracks
+    v.push(Case { store: true, model: true, ops: vec![Op::Add(spec("user", "loc", None, Some(1000), 0, 1)), Op::Commit, Op::Clear, Op::Commit, Op::Reopen] });
+    v.push(Case { store: true, model: true, ops: vec![Op::Add(spec("user", "loc", None, Some(1000), 0, 1)), Op::Commit, Op::Frame, Op::Crash] });
+    v.push(Case { store: true, model: true, ops: vec![
+        Op::Node { name: "alice".into(), display: "Alice".into(), kind: 0, conf: 90, frame: 0, start: 0, len: 5 }, Op::Commit, Op::MeshClear, Op::Commit, Op::Reopen] });
+    v.push(Case { store: true, model: true, ops: vec![
+        Op::Node { name: "alice".into(), display: "Alice".into(), kind: 0, conf: 90, frame: 0, start: 0, len: 5 }, Op::Commit, Op::Frame, Op::Crash] });
+    // both commit paths, plain
+    v.push(Case { store: true, model: true, ops: vec![Op::Add(spec("user", "loc", None, Some(1), 0, 1)), Op::Frame, Op::Commit, Op::Add(spec("user", "loc", None, Some(2), 1, 1)), Op::Commit, Op::Reopen,
+        Op::Current("user".into(), "loc".into()), Op::Add(spec("user", "loc", None, Some(3), 3, 1)), Op::Reopen, Op::Current("USER".into(), "LOC".into()), Op::Crash, Op::Dump] });
+    v
+}
+
+// ------------------------------------------------------------------------------------------- main
+
+fn record(case: &Case, res: &Res, sum: &mut Summary, known: &[String]) {
+    for b in &res.branches { sum.branch(b); }
+    sum.branch(if case.store { "store-case" } else { "track-case" });
+    if !case.model { sum.branch("oracle-only-unicode-case"); }
+    sum.case(&res.canon, res.nontrivial, || json!({"store": case.store, "ops": case.ops.len(), "first_ops": case.ops.iter().take(4).map(|o| format!("{o:?}")).collect::<Vec<_>>()}));
+    if let Some((sig, what)) = res.oracle.first() {
+        if res.disagree.is_empty() && case.model && known.iter().any(|k| k == sig) {
+            sum.known_finding(sig, what, case.to_json());
+        } else {
+            sum.oracle_violation(sig, what, case.to_json());
+        }
+    } else if let Some(e) = &res.error {
+        sum.oracle_violation("operation-failed", e, case.to_json());
+    }
+    if let Some((what, m, i)) = res.disagree.first() {
+        sum.disagreement(what, case.to_json(), m, i);
+    }
+}
+
+fn shrink(case: &Case, drv: &mut Option<Driver>, res: &Res) -> Case {
+    let sig = res.oracle.first().map(|x| x.0.clone());
+    let had_dis = !res.disagree.is_empty();
+    let mut fails = |ops: &[Op]| {
+        if matches!(ops.first(), Some(Op::Raw(_))) != matches!(case.ops.first(), Some(Op::Raw(_))) { return false; }
+        let c = Case { store: case.store, model: case.model, ops: ops.to_vec() };
+        let r = guarded(std::panic::AssertUnwindSafe(|| eval_case(&c, drv)));
+        match r {
+            Ok(r) => match &sig { Some(s) => r.oracle.first().map(|x| &x.0) == Some(s), None => had_dis && !r.disagree.is_empty() },
+            Err(_) => false,
+        }
+    };
+    let ops = shrink_list(&case.ops, &mut fails);
+    Case { store: case.store, model: case.model, ops }
+}
+
 fn main() {
-    let dir = tempfile::tempdir().unwrap();
-    // probe 1: clear + commit + reopen
-    let p = dir.path().join("a.mv2");
-    {
-        let mut m = Memvid::create(&p).unwrap();
-        m.put_memory_card(card("NY")).unwrap();
-        m.commit().unwrap();
-        m.clear_memories();
-        m.commit().unwrap();
-        println!("p1 before reopen: {}", m.memory_card_count());
+    let args = parse_args();
+    let mut drv: Option<Driver> = if args.driver.as_os_str() == "none" { None } else { Some(Driver::spawn(&args.driver).expect("spawn driver")) };
+    let known: Vec<String> = args.extra.get("known").map(|s| s.split(',').filter(|x| !x.is_empty() && *x != "-").map(|x| x.to_string()).collect()).unwrap_or_default();
+    let mut sum = Summary::new("C27", &args,
+        "track cases: 0-14 (thorough 0-40) cards over 1-3 entities x 1-3 slots in random ASCII case (pools include ':' inside names, empty, CJK), \
+         timestamps from a pool of 1-4 values (ties) plus i64 extremes, missing event/document dates, all four version relations (25% extra retractions), \
+         queries at/around/beyond every card time, serialize->deserialize in between; raw tracks deserialised from JSON (mixed-case index keys, dangling/duplicate ids); \
+         oracle-only Unicode upper-case names; store cases: 3-12 (thorough 3-24) operations of put_memory_card / clear_memories / put_bytes / mesh node / mesh edge / mesh clear / \
+         commit / close+reopen / crash+reopen on a real .mv2 file, ending with a durable point and a reopen; non-trivial = a queried slot holds >= 2 cards or cards survive a reopen; \
+         distinct = blake3 of all implementation answers");
+    sum.expect_branches(&["at-some", "at-none-with-cards", "at-beyond-latest", "at-some-with-later-cards", "at-skips-retraction", "query-slot-with-timestamp-tie",
+        "current-skips-newer-retraction", "current-none-all-retracted", "add-dateless", "default-version-key", "colon-in-entity-or-slot", "roundtrip", "raw-track",
+        "clear", "frame", "commit-with-cards", "commit-without-cards", "reopen-with-cards", "crash-with-cards", "reopen-with-mesh", "mesh-node", "mesh-edge", "mesh-clear",
+        "oracle-only-unicode-case", "timeline-2plus"]);
+    if args.mode == "replay" {
+        let v = load_replay(args.replay_file.as_ref().expect("replay file"));
+        let input = v.get("input").unwrap_or(&v);
+        let case = Case::from_json(input);
+        let res = eval_case(&case, &mut drv);
+        println!("case: store={} model={} ops={}", case.store, case.model, case.ops.len());
+        for t in &res.trace { println!("  {t}"); }
+        for (s, w) in &res.oracle { println!("ORACLE {s}: {w}"); }
+        for (w, m, i) in &res.disagree { println!("DISAGREE {w}\n   model: {m}\n   impl : {i}"); }
+        if let Some(e) = &res.error { println!("ERROR {e}"); }
+        record(&case, &res, &mut sum, &known);
+        sum.model_requests = drv.as_ref().map(|d| d.requests).unwrap_or(0);
+        sum.finish(&args);
     }
-    { let m = Memvid::open(&p).unwrap(); println!("p1 after reopen: {}", m.memory_card_count()); }
-    // probe 2: committed cards, then uncommitted frame put, drop, reopen
-    let p = dir.path().join("b.mv2");
-    {
-        let mut m = Memvid::create(&p).unwrap();
-        m.put_memory_card(card("NY")).unwrap();
-        m.commit().unwrap();
-        m.put_bytes(b"hello world").unwrap();
-        println!("p2 before reopen: {}", m.memory_card_count());
-        std::fs::copy(&p, dir.path().join("b2.mv2")).unwrap();
+    let mut rng = Rng::new(args.seed);
+    let (n_track, n_raw, n_uni, n_store) = if args.thorough { (6000, 1500, 600, 1500) } else { (700, 200, 80, 110) };
+    let mut cases = corpus();
+    for _ in 0..n_track { cases.push(gen_track_case(&mut rng, args.thorough)); }
+    for _ in 0..n_raw { cases.push(gen_raw_case(&mut rng)); }
+    for _ in 0..n_uni { cases.push(gen_unicode_case(&mut rng)); }
+    for _ in 0..n_store { cases.push(gen_store_case(&mut rng, args.thorough)); }
+    let mut reported: BTreeSet<String> = BTreeSet::new();
+    for case in &cases {
+        let res = match guarded(std::panic::AssertUnwindSafe(|| eval_case(case, &mut drv))) {
+            Ok(r) => r,
+            Err(p) => {
+                sum.oracle_violation("panic", &p, case.to_json());
+                if let Some(d) = drv.as_mut() { let _ = d.restart(); }
+                continue;
+            }
+        };
+        let failing = !res.oracle.is_empty() || !res.disagree.is_empty();
+        if failing {
+            // one minimised report per failure class
+            let class = res.oracle.first().map(|x| x.0.clone()).unwrap_or_else(|| format!("disagree:{}", res.disagree[0].0.split(' ').skip(2).next().unwrap_or("")));
+            if reported.insert(class) {
+                let small = shrink(case, &mut drv, &res);
+                let res2 = eval_case(&small, &mut drv);
+                if !res2.oracle.is_empty() || !res2.disagree.is_empty() { record(&small, &res2, &mut sum, &known); } else { record(case, &res, &mut sum, &known); }
+            } else {
+                sum.case(&res.canon, res.nontrivial, || json!({}));
+                for b in &res.branches { sum.branch(b); }
+            }
+        } else {
+            record(case, &res, &mut sum, &known);
+        }
     }
-    { let p2 = dir.path().join("b2.mv2"); let m = Memvid::open(&p2).unwrap(); println!("p2 crash-copy after reopen: cards {} frames {}", m.memory_card_count(), m.frame_count()); }
-    { let m = Memvid::open(&p).unwrap(); println!("p2 after reopen: {}", m.memory_card_count()); }
-    { let m = Memvid::open(&p).unwrap(); println!("p2 after 2nd reopen: {}", m.memory_card_count()); }
-    // probe 3: plain
-    let p = dir.path().join("c.mv2");
-    {
-        let mut m = Memvid::create(&p).unwrap();
-        m.put_memory_card(card("NY")).unwrap();
-        m.put_bytes(b"hello world").unwrap();
-        m.commit().unwrap();
-        m.put_memory_card(card("SF")).unwrap();
-        m.commit().unwrap();
-    }
-    { let m = Memvid::open(&p).unwrap(); println!("p3 after reopen: {}", m.memory_card_count()); }
+    sum.model_requests = drv.as_ref().map(|d| d.requests).unwrap_or(0);
+    sum.finish(&args);
 }
